@@ -74,11 +74,11 @@ def streams(tier, rng, P, only=None, cases=None):
                     nonlocal decl
                     k = int(mo.group(1)); r = rng.random()
                     if r < 0.4: return mo.group(0)
-                    if r < 0.55: return "[(%d) " % k
+                    if r < 0.55: return rng.choice(["[(%d) ", "[(%d) ", "[(%d ) ", "[( %d ) ", "[( %d) "]) % k      # blanks inside the parentheses of a count
                     nm = next(names, None)
                     if nm is None: return mo.group(0)
                     decl += "Int %s=%d; " % (nm, k)
-                    return ("[(%s) " if r < 0.85 else "[=%s ") % nm
+                    return (rng.choice(["[(%s) ", "[(%s ) ", "[( %s ) "]) if r < 0.85 else "[=%s ") % nm
                 src = re.sub(r"\[(\d+) ", repl, src)
             wrap = rng.random()
             if wrap < 0.15:       # inside a macro body
